@@ -146,6 +146,7 @@ def check_state(scn, st, corrupt=None):
     if corrupt:
         text = text.replace('ENDV', 'UNION 1 987654 ENDV', 1)
     t4 = t4read.parse(text)
+    oracle.structural_cls(t4, list(getattr(st, 'options', []) or []))     # adds missing-section problems
     stats = {'volumes': len(t4.vols), 'surfaces': len(t4.surfs), 'files': 1}
     if t4.problems:
         rules = sorted(set(p[0] for p in t4.problems))
